@@ -13,6 +13,7 @@ import numpy as np
 import common as C
 import fuzzylite as fl
 from props import c04
+from streams import highest_activated as S_HIGH
 
 sys.set_int_max_str_digits(0)
 
@@ -33,6 +34,7 @@ RULE = ("WeightedAverage and WeightedSum x {Automatic, TakagiSugeno, Tsukamoto} 
         "incl. exact 0, 1, NaN/inf; mixtures that make type inference fail and terms without tsukamoto are part of the "
         "stream (same exception in model and implementation). Also compared: grouped_terms() and activation_degree(). "
         "A case is non-trivial when the result is a finite number; distinct = distinct input")
+RULE += (" Stream `highest-activated` (fv/streams/highest_activated.py): Aggregated.highest_activated_term (scalar degrees, 1-D degrees of one entry, batches -> ValueError) and Aggregated.range against Op.Weighted.highestActivated.")
 ASSUMPTIONS = ["numbers: 1e-9 abs+rel relative to the magnitude of the accumulated terms",
                "Arc is left out (C03/F1: its centre is computed with rounding); Function terms are polynomials in x whose "
                "coefficients are function variables (formula evaluation itself is C17)",
@@ -208,6 +210,8 @@ def close_scaled(v, exact, scale):
 
 
 def key(case):
+    if case.get("stream"):
+        return case["stream"]
     zero = any(nan_to_num01(d) == 0 for a in case["acts"] for d in (a["deg"] if isinstance(a["deg"], list) else [a["deg"]]))
     tsk = sorted({case["terms"][a["name"]]["cls"] for a in case["acts"]})
     return (f"{case['which']};type={case['type']};agg={case['agg']};zero={int(zero)};batch={batch_size(case) if is_batch(case) else 0};"
@@ -215,6 +219,8 @@ def key(case):
 
 
 def oracle(case):
+    if case.get("stream"):
+        return S_HIGH.oracle(case, sys.modules[__name__])    # Aggregated.highest_activated_term / range
     B = batch_size(case)
     batch = run(case) if is_batch(case) else None
     for b in range(B):
@@ -368,7 +374,8 @@ def corpus():
     out = []
     for p in sorted(glob.glob(os.path.join(C.VERIF, "corpus", PID, "*.json"))):
         d = json.load(open(p))
-        out.append(d.get("case", d))
+        if not d.get("case", d).get("stream"):
+            out.append(d.get("case", d))
     return out
 
 
@@ -518,6 +525,8 @@ def correspond(ctx):
                 if len(mism) > 12:
                     break
     st.count("oracle", n_or)
+    # Aggregated.highest_activated_term / range against Op.Weighted.highestActivated (model of the code tie)
+    mism += S_HIGH.run(ctx, sys.modules[__name__])
     return mism
 
 
